@@ -161,8 +161,9 @@ class SumAggregator:
             if len(rules) != 1:
                 continue
             at_most, at_least = self._calc_at_most_on_rule(rules[0])
-            ret[0].extend(at_most)
-            ret[1].extend(at_least)
+            # the rule can also mention other predicates (skipped elements), only pred itself is known to have no other rule
+            ret[0].extend(x for x in at_most if x.pred == pred)
+            ret[1].extend(x for x in at_least if x.pred == pred)
 
         return ret
 
